@@ -147,6 +147,8 @@ def render(prog):
                     out.append(f"        terminate simulation when {_c(c)}")
                 for r in range(d.get("records", 0)):
                     out.append(f'        record probe.rec("{name}.r{r}") as {name}_r{r}')
+                for m in d.get("monitors", ()):
+                    out.append(f"        require monitor {m}()")
             if d.get("compose") is not None:
                 out.append("    compose:")
                 render_block(d["compose"], name, 2, out)
@@ -589,6 +591,12 @@ C12_SUBSCENARIOS = {
     "S8": {"compose": [("dofor", ["S6", "S3"], 3, "steps"), ("waituntil", "c1")]},
     "S9": {"termsim_when": ["tss"], "terminate_after": (3, "steps"), "compose": None},
     "S10": {"termsim_when": ["tss"], "records": 1, "compose": [("wait",), ("wait",), ("wait",), ("wait",)]},
+    "S11": {"monitors": ["M2"], "compose": [("wait",), ("wait",), ("wait",), ("wait",)]},
+    "S12": {"compose": [("do", ["S11"]), ("wait",)]},
+}
+
+MONITOR2 = {
+    "M2": {"body": [("loop", None, [("if", "m2t", [("terminate",)]), ("if", "m2s", [("termsim",)]), ("wait",)])]}
 }
 
 
@@ -657,12 +665,17 @@ def c12_modular_programs(tier, start_index=0):
         ([("do", ["S10"]), W], 6),
         ([("do", ["S9"]), W, W], 6),
         ([("do", ["S10", "S3"]), W], 6),
+        # monitors instantiated by a sub-scenario: `terminate` stops that sub-scenario only
+        ([("do", ["S11"]), W, W], 6),
+        ([("do", ["S11", "S6"]), W], 6),
+        ([("dofor", ["S11"], 2, "steps"), W, W], 6),
+        ([W, ("do", ["S12"]), W], 6),
     ):
         scen = dict(C12_SUBSCENARIOS)
         scen["Main"] = {"terminate_after": (ta, "steps"), "terminate_when": ["tw"], "compose": list(body)}
         prog = {
             "behaviors": {"B": {"body": [("loop", None, [("take", "a")])]}},
-            "monitors": dict(MONITOR),
+            "monitors": dict(MONITOR, **MONITOR2),
             "agents": [("A1", "B")],
             "scenarios": scen,
             "main": "Main",
